@@ -1,1 +1,723 @@
-fn main() { eprintln!("not built yet"); std::process::exit(2); }
+//! C13 — M2, skin and anim files survive write→parse, also across version conversion.
+//! Bounded exhaustive exploration: every model within ≤K deviations of two baselines × every
+//! version; every (from,to) conversion pair; byte-level seeds with key frames; every skin and
+//! anim population tuple.  Oracles: independent container walker, content equality modulo
+//! derived offsets, byte-identical rewrite, same-version conversion identity.
+use serde_json::{json, Map, Value};
+use std::io::Cursor;
+use vcore::*;
+use wow_m2::{M2Converter, M2Model, M2Version};
+
+mod animfile;
+mod cmp;
+mod emit;
+mod gen;
+mod indep;
+mod repro;
+mod skinfile;
+mod walker;
+
+#[global_allocator]
+static A: vcore::alloc::Counting = vcore::alloc::Counting;
+
+// ------------------------------------------------------------------ library calls, guarded
+
+pub enum Call<T> {
+    Ok(T),
+    Err(String),
+    Panic(String, String),
+}
+
+pub fn call<T>(f: impl FnOnce() -> Result<T, String>) -> Call<T> {
+    match guarded(f) {
+        Ok(Ok(v)) => Call::Ok(v),
+        Ok(Err(e)) => Call::Err(e),
+        Err((file, line, msg)) => Call::Panic(panic_class(&file, &msg), format!("{file}:{line}: {msg}")),
+    }
+}
+
+fn m2_write(m: &M2Model) -> Call<Vec<u8>> {
+    call(|| {
+        let mut c = Cursor::new(Vec::new());
+        m.write(&mut c).map_err(|e| e.to_string())?;
+        Ok(c.into_inner())
+    })
+}
+fn m2_parse(b: &[u8]) -> Call<M2Model> {
+    call(|| M2Model::parse(&mut Cursor::new(b)).map_err(|e| e.to_string()))
+}
+
+/// Unwrap a library call inside a case: a panic is a violation (class + step), an `Err` is
+/// either a legitimate refusal (`refusal_ok`) or a violation.
+macro_rules! step {
+    ($r:expr, $call:expr, $step:expr, $refusal_ok:expr) => {
+        match $call {
+            Call::Ok(v) => v,
+            Call::Err(e) => {
+                if $refusal_ok {
+                    $r.err_return = true;
+                    $r.outcome.push_str(&format!("{}:Err;", $step));
+                } else {
+                    $r.viol(format!("{} returns Err", $step), e);
+                    $r.outcome.push_str(&format!("{}:Err!;", $step));
+                }
+                return;
+            }
+            Call::Panic(class, detail) => {
+                $r.viol(format!("{} [{}]", class, $step), detail);
+                $r.outcome.push_str(&format!("{}:panic;", $step));
+                return;
+            }
+        }
+    };
+}
+pub(crate) use step;
+
+fn expect_counts(m: &M2Model) -> Vec<(&'static str, usize)> {
+    let r = &m.raw_data;
+    vec![
+        ("name", m.name.as_ref().map(|n| n.len() + 1).unwrap_or(0)),
+        ("global_sequences", m.global_sequences.len()),
+        ("animations", m.animations.len()),
+        ("animation_lookup", m.animation_lookup.len()),
+        ("bones", m.bones.len()),
+        ("key_bone_lookup", m.key_bone_lookup.len()),
+        ("vertices", m.vertices.len()),
+        ("textures", m.textures.len()),
+        ("materials", m.materials.len()),
+        ("bone_lookup_table", r.bone_lookup_table.len()),
+        ("texture_lookup_table", r.texture_lookup_table.len()),
+        ("texture_units", r.texture_units.len()),
+        ("transparency_lookup_table", r.transparency_lookup_table.len()),
+        ("texture_animation_lookup", r.texture_animation_lookup.len()),
+        ("bounding_triangles", r.bounding_triangles.len() / 2),
+        ("bounding_vertices", r.bounding_vertices.len() / 12),
+        ("bounding_normals", r.bounding_normals.len() / 12),
+        ("attachment_lookup_table", r.attachment_lookup_table.len()),
+        ("camera_lookup_table", r.camera_lookup_table.len()),
+        ("particle_emitters", m.particle_emitters.len()),
+        ("ribbon_emitters", m.ribbon_emitters.len()),
+        ("texture_animations", m.texture_animations.len()),
+        ("color_animations", m.color_animations.len()),
+        ("transparency_animations", m.transparency_animations.len()),
+        ("events", m.events.len()),
+        ("attachments", m.attachments.len()),
+        ("cameras", m.cameras.len()),
+        ("lights", m.lights.len()),
+    ]
+}
+
+/// Walk the written container; returns the header to use for further decoding.
+fn walk(r: &mut CaseResult, b: &[u8], what: &str, expect: &[(&str, usize)]) -> Option<walker::Hdr> {
+    let mut h = match walker::header(b) {
+        Ok(h) => h,
+        Err(e) => {
+            // a header that announces the combiner field but is too short for it
+            match walker::header_opts(b, true) {
+                Ok(h) if h.flags & 8 != 0 => {
+                    r.viol(format!("{what}: header is shorter than its flags require (flag 0x8 set, texture_combiner_combos field missing)"), e);
+                    h
+                }
+                _ => {
+                    r.viol(format!("{what}: written container has no readable header"), e);
+                    return None;
+                }
+            }
+        }
+    };
+    if h.flags & 8 != 0 && h.pair("texture_combiner_combos").is_some() {
+        let min_off = h.pairs.iter().filter(|p| p.count > 0 && p.name != "texture_combiner_combos").map(|p| p.offset as usize).min();
+        if min_off.map(|o| o < h.len).unwrap_or(false) {
+            r.viol(
+                format!("{what}: header is shorter than its flags require (flag 0x8 set, texture_combiner_combos field missing)"),
+                format!("first section starts at {} but a header with the combiner field is {} bytes", min_off.unwrap(), h.len),
+            );
+            h = walker::header_opts(b, true).unwrap();
+        }
+    }
+    for f in walker::check_layout(b, &h, expect, what) {
+        r.viol(f.symptom, f.detail);
+    }
+    Some(h)
+}
+
+fn diff_sections(r: &mut CaseResult, what: &str, exp: &[(&'static str, String)], got: &[(&'static str, String)]) -> usize {
+    let mut n = 0;
+    for ((s, a), (_, b)) in exp.iter().zip(got.iter()) {
+        if a != b {
+            r.viol(format!("{what} in section {s}"), cmp::first_diff(a, b));
+            n += 1;
+        }
+    }
+    n
+}
+
+fn byte_diff(r: &mut CaseResult, what: &str, w1: &[u8], w2: &[u8]) {
+    if w1 == w2 {
+        return;
+    }
+    let pos = w1.iter().zip(w2.iter()).position(|(a, b)| a != b).unwrap_or(w1.len().min(w2.len()));
+    let place = match walker::header_opts(w1, true) {
+        Ok(h) => walker::locate(w1, &h, pos),
+        Err(_) => "unreadable".into(),
+    };
+    r.viol(format!("{what} (first difference in {place})"), format!("lengths {} vs {}, first difference at byte {}", w1.len(), w2.len(), pos));
+}
+
+// ------------------------------------------------------------------ model enumeration
+
+#[derive(Clone)]
+struct MCase {
+    base: u8,
+    devs: Vec<(u8, u8)>,
+}
+
+fn enum_models(maxdev: usize) -> Vec<MCase> {
+    let ns = gen::SITES.len();
+    let mut out = vec![];
+    for nd in 0..=maxdev {
+        for base in 0..2u8 {
+            // choose nd sites ascending, then a non-baseline level for each
+            let mut idx: Vec<usize> = (0..nd).collect();
+            if nd > ns {
+                continue;
+            }
+            loop {
+                // level combinations
+                let alts: Vec<Vec<u8>> = idx
+                    .iter()
+                    .map(|&s| {
+                        let bl = if base == 0 { 0 } else { gen::SITES[s].full };
+                        (0..gen::SITES[s].levels.len() as u8).filter(|l| *l != bl).collect()
+                    })
+                    .collect();
+                let radices: Vec<u64> = alts.iter().map(|a| a.len() as u64).collect();
+                let total: u64 = radices.iter().product();
+                for c in 0..total {
+                    let d = vcore::gen::mixed_radix(c, &radices);
+                    out.push(MCase { base, devs: idx.iter().enumerate().map(|(k, &s)| (s as u8, alts[k][d[k] as usize])).collect() });
+                }
+                // next combination
+                let mut k = nd;
+                loop {
+                    if k == 0 {
+                        break;
+                    }
+                    k -= 1;
+                    if idx[k] < ns - nd + k {
+                        idx[k] += 1;
+                        for j in k + 1..nd {
+                            idx[j] = idx[j - 1] + 1;
+                        }
+                        k = usize::MAX;
+                        break;
+                    }
+                }
+                if k != usize::MAX {
+                    break;
+                }
+            }
+        }
+    }
+    out
+}
+
+fn levels_of(c: &MCase) -> Vec<u8> {
+    let mut lv: Vec<u8> = gen::SITES.iter().map(|s| if c.base == 0 { 0 } else { s.full }).collect();
+    for (s, l) in &c.devs {
+        lv[*s as usize] = *l;
+    }
+    lv
+}
+
+fn describe_model(c: &MCase) -> (Value, Value) {
+    let lv = levels_of(c);
+    let mut sites = Map::new();
+    for (i, s) in gen::SITES.iter().enumerate() {
+        sites.insert(s.name.into(), json!(s.levels[lv[i] as usize]));
+    }
+    let mut dev = Map::new();
+    for (s, l) in &c.devs {
+        dev.insert(gen::SITES[*s as usize].name.into(), json!(gen::SITES[*s as usize].levels[*l as usize]));
+    }
+    (Value::Object(dev), Value::Object(sites))
+}
+
+// ------------------------------------------------------------------ space "m2"
+
+struct M2Space {
+    models: Vec<MCase>,
+}
+impl Space for M2Space {
+    fn len(&self) -> u64 {
+        (self.models.len() * gen::VERSIONS.len()) as u64
+    }
+    fn describe(&self, i: u64) -> Value {
+        let c = &self.models[i as usize / gen::VERSIONS.len()];
+        let (dev, sites) = describe_model(c);
+        json!({"space": "m2", "version": gen::VERSIONS[i as usize % gen::VERSIONS.len()].0, "base": (["empty", "full"][c.base as usize]), "dev": dev, "sites": sites})
+    }
+    fn run(&self, i: u64) -> CaseResult {
+        let c = &self.models[i as usize / gen::VERSIONS.len()];
+        let (vname, ver) = gen::VERSIONS[i as usize % gen::VERSIONS.len()];
+        let lv = levels_of(c);
+        let mut r = CaseResult::new();
+        r.key = format!("m2/{vname}/{:?}", lv);
+        r.nontrivial = lv.iter().any(|l| *l != 0);
+        let m = gen::build(ver, &lv);
+        api_roundtrip(&mut r, &m, ver);
+        if r.outcome.is_empty() {
+            r.outcome = "held".into();
+        }
+        if !r.viols.is_empty() {
+            r.outcome.push_str("viol");
+        }
+        r
+    }
+}
+
+fn api_roundtrip(r: &mut CaseResult, m: &M2Model, ver: M2Version) {
+    let vnum = m.header.version;
+    let exp = gen::canon(m, vnum);
+    let w1 = step!(r, m2_write(m), "write(model)", true);
+    r.count("writes", 1);
+    r.count("bytes_written", w1.len() as u64);
+    let Some(h1) = walk(r, &w1, "write(model)", &expect_counts(&exp)) else { return };
+    for f in indep::compare(&w1, &h1, &exp, "write(model)", &[]) {
+        r.viol(f.symptom, f.detail);
+    }
+    let p1 = step!(r, m2_parse(&w1), "parse(write(model))", false);
+    r.count("parses", 1);
+    diff_sections(r, "parse(write(model)) differs from the model", &cmp::sections(&exp, false), &cmp::sections(&p1, false));
+    let w2 = step!(r, m2_write(&p1), "write(parse(write(model)))", false);
+    byte_diff(r, "write(parse(write(model))) is not byte-identical to write(model)", &w1, &w2);
+    // conversion to the same version changes nothing (both entry points)
+    let c1 = step!(r, call(|| m.convert(ver).map_err(|e| e.to_string())), "convert(model, same version)", false);
+    let wc = step!(r, m2_write(&c1), "write(convert(model, same version))", false);
+    byte_diff(r, "M2Model::convert to the same version changes the written bytes", &w1, &wc);
+    let c2 = step!(r, call(|| M2Converter::new().convert(m, ver).map_err(|e| e.to_string())), "M2Converter::convert(model, same version)", false);
+    let wc2 = step!(r, m2_write(&c2), "write(M2Converter::convert(model, same version))", false);
+    byte_diff(r, "M2Converter::convert to the same version changes the written bytes", &w1, &wc2);
+}
+
+// ------------------------------------------------------------------ space "m2conv"
+
+struct ConvSpace {
+    models: Vec<MCase>,
+}
+const NV: usize = 5;
+impl ConvSpace {
+    fn decode(&self, i: u64) -> (usize, usize, usize, usize) {
+        let d = vcore::gen::mixed_radix(i, &[NV as u64, NV as u64, 2, self.models.len() as u64]);
+        (d[3] as usize, d[1] as usize, d[0] as usize, d[2] as usize) // model, from, to, entry point
+    }
+}
+impl Space for ConvSpace {
+    fn len(&self) -> u64 {
+        (self.models.len() * NV * NV * 2) as u64
+    }
+    fn describe(&self, i: u64) -> Value {
+        let (mi, from, to, ep) = self.decode(i);
+        let c = &self.models[mi];
+        let (dev, sites) = describe_model(c);
+        json!({"space": "m2conv", "from": gen::VERSIONS[from].0, "to": gen::VERSIONS[to].0, "via": (["M2Model::convert", "M2Converter::convert"][ep]),
+               "base": (["empty", "full"][c.base as usize]), "dev": dev, "sites": sites})
+    }
+    fn run(&self, i: u64) -> CaseResult {
+        let (mi, from, to, ep) = self.decode(i);
+        let c = &self.models[mi];
+        let lv = levels_of(c);
+        let mut r = CaseResult::new();
+        r.key = format!("conv/{from}/{to}/{ep}/{:?}", lv);
+        r.nontrivial = lv.iter().any(|l| *l != 0);
+        let src = gen::build(gen::VERSIONS[from].1, &lv);
+        conv_case(&mut r, &src, gen::VERSIONS[from].1, gen::VERSIONS[to].1, ep);
+        if r.outcome.is_empty() {
+            r.outcome = "held".into();
+        }
+        if !r.viols.is_empty() {
+            r.outcome.push_str("viol");
+        }
+        r
+    }
+}
+
+fn conv_case(r: &mut CaseResult, src: &M2Model, from: M2Version, to: M2Version, ep: usize) {
+    let a = from.to_header_version();
+    let b = to.to_header_version();
+    let conv = |m: &M2Model| -> Call<M2Model> {
+        if ep == 0 {
+            call(|| m.convert(to).map_err(|e| e.to_string()))
+        } else {
+            call(|| M2Converter::new().convert(m, to).map_err(|e| e.to_string()))
+        }
+    };
+    let c = step!(r, conv(src), "convert", true);
+    r.count("conversions", 1);
+    if c.header.version != b {
+        r.viol("converted model does not carry the target header version", format!("{} -> wanted {} got {}", a, b, c.header.version));
+        return;
+    }
+    let wc = step!(r, m2_write(&c), "write(convert(model))", true);
+    if a == b {
+        // same header version (also Cataclysm<->MoP): bytes must equal those of the source
+        let w1 = step!(r, m2_write(src), "write(model)", true);
+        byte_diff(r, "conversion to a version with the same header number changes the written bytes", &w1, &wc);
+        return;
+    }
+    let mut exp = gen::canon(src, b);
+    gen::strip_uncommon(&mut exp, a, b);
+    let Some(hc) = walk(r, &wc, "write(convert(model))", &expect_counts(&exp)) else { return };
+    if hc.version != b {
+        r.viol("converted file does not carry the target header version", format!("wanted {b} got {}", hc.version));
+    }
+    let mut pc = step!(r, m2_parse(&wc), "parse(write(convert(model)))", false);
+    gen::strip_uncommon(&mut pc, a, b);
+    exp.header.version = b;
+    diff_sections(r, "conversion loses content representable in both versions", &cmp::sections(&exp, false), &cmp::sections(&pc, false));
+}
+
+// ------------------------------------------------------------------ space "seed"
+
+struct SeedSpace {
+    subsets: Vec<Vec<&'static str>>,
+}
+impl SeedSpace {
+    fn new(tier: Tier) -> Self {
+        let t = emit::TRACKED;
+        let mut subsets: Vec<Vec<&'static str>> = vec![vec![]];
+        for a in 0..t.len() {
+            subsets.push(vec![t[a]]);
+        }
+        for a in 0..t.len() {
+            for b in a + 1..t.len() {
+                subsets.push(vec![t[a], t[b]]);
+            }
+        }
+        if tier == Tier::Thorough {
+            for a in 0..t.len() {
+                for b in a + 1..t.len() {
+                    for c in b + 1..t.len() {
+                        subsets.push(vec![t[a], t[b], t[c]]);
+                    }
+                }
+            }
+        }
+        subsets.push(t.to_vec());
+        SeedSpace { subsets }
+    }
+    fn decode(&self, i: u64) -> (usize, usize, usize, bool, usize) {
+        let d = vcore::gen::mixed_radix(i, &[NV as u64, 2, 2, 2, self.subsets.len() as u64]);
+        (d[4] as usize, [1, 3][d[1] as usize], [1, 3][d[2] as usize], d[3] == 1, d[0] as usize)
+    }
+}
+impl Space for SeedSpace {
+    fn len(&self) -> u64 {
+        (self.subsets.len() * 8 * NV) as u64
+    }
+    fn describe(&self, i: u64) -> Value {
+        let (si, n, k, share, v) = self.decode(i);
+        json!({"space": "seed", "version": gen::VERSIONS[v].0, "tracked_sections": self.subsets[si], "records": n, "keys": k, "shared_timestamps": share})
+    }
+    fn run(&self, i: u64) -> CaseResult {
+        let (si, n, k, share, v) = self.decode(i);
+        let mut r = CaseResult::new();
+        r.key = format!("seed/{i}");
+        r.nontrivial = !self.subsets[si].is_empty();
+        let ver = gen::VERSIONS[v].1;
+        let seed = emit::make_seed(ver.to_header_version(), &self.subsets[si], n, k, share);
+        seed_case(&mut r, &seed, ver);
+        if r.outcome.is_empty() {
+            r.outcome = "held".into();
+        }
+        if !r.viols.is_empty() {
+            r.outcome.push_str("viol");
+        }
+        r
+    }
+}
+
+fn seed_expect(seed: &emit::Seed) -> Vec<(&'static str, usize)> {
+    let mut v: Vec<(&'static str, usize)> = seed.tracks.iter().map(|(k, t)| (*k, t.len())).collect();
+    v.push(("events", seed.events.len()));
+    v.push(("vertices", seed.n_vertices));
+    v.push(("global_sequences", seed.n_global_sequences));
+    v.push(("name", seed.name.len()));
+    if seed.version <= 263 {
+        v.push(("views", seed.views.len()));
+    }
+    for s in emit::TRACKED {
+        if s != "views" && s != "events" && !seed.tracks.contains_key(s) {
+            v.push((s, 0));
+        }
+    }
+    v
+}
+
+/// compare the key frames found in `b` with those of the seed; `a`/`bv`: source / file version
+fn keyframes_vs_seed(r: &mut CaseResult, what: &str, b: &[u8], h: &walker::Hdr, seed: &emit::Seed, src_ver: u32) {
+    let fv = h.version;
+    for (sec, want) in &seed.tracks {
+        let Some(got) = walker::tracks(b, h, sec) else {
+            r.viol(format!("{what}: section {sec} (records unreadable)"), "record array outside file");
+            continue;
+        };
+        if got.len() != want.len() {
+            continue; // reported by the layout check
+        }
+        let bone_ranges = *sec != "bones" || (src_ver < 264 && fv < 264);
+        'sec: for (i, (gr, wr)) in got.iter().zip(want.iter()).enumerate() {
+            for (j, (g, w)) in gr.iter().zip(wr.iter()).enumerate() {
+                let mut bad = vec![];
+                if g.times != w.times {
+                    bad.push("timestamps");
+                }
+                if g.values != w.values {
+                    bad.push("values");
+                }
+                if bone_ranges && g.ranges != w.ranges {
+                    bad.push("ranges");
+                }
+                if (g.interp, g.gseq) != (w.interp, w.gseq) {
+                    bad.push("interpolation/global-sequence");
+                }
+                if !bad.is_empty() {
+                    r.viol(
+                        format!("{what}: section {sec} ({})", bad.join("+")),
+                        format!("record {i} value {j}: want {:?} got {:?}", short(w), short(g)),
+                    );
+                    break 'sec;
+                }
+            }
+        }
+    }
+    if !seed.events.is_empty() {
+        match walker::event_arrays(b, h) {
+            Some(got) if got.len() == seed.events.len() => {
+                for (i, ((gr, gt), (wr, wt))) in got.iter().zip(seed.events.iter()).enumerate() {
+                    let mut bad = vec![];
+                    if gt.as_ref() != Some(wt) {
+                        bad.push("timestamps");
+                    }
+                    if src_ver <= 263 && fv <= 263 && gr.as_ref() != Some(wr) {
+                        bad.push("ranges");
+                    }
+                    if !bad.is_empty() {
+                        r.viol(format!("{what}: section events ({})", bad.join("+")), format!("event {i}: want ranges {:?} times {:?}, got {:?} {:?}", wr, wt, gr, gt));
+                        break;
+                    }
+                }
+            }
+            Some(_) => {}
+            None => r.viol(format!("{what}: section events (records unreadable)"), "record array outside file"),
+        }
+    }
+    if !seed.views.is_empty() && fv <= 263 {
+        match walker::views(b, h) {
+            Some(got) if got.len() == seed.views.len() => {
+                for (i, (g, w)) in got.iter().zip(seed.views.iter()).enumerate() {
+                    let mut bad = vec![];
+                    if g.indices != w.indices {
+                        bad.push("indices");
+                    }
+                    if g.triangles != w.triangles {
+                        bad.push("triangles");
+                    }
+                    if g.properties != w.properties {
+                        bad.push("properties");
+                    }
+                    if g.submeshes != w.submeshes {
+                        bad.push("submeshes");
+                    }
+                    if g.batches != w.batches {
+                        bad.push("batches");
+                    }
+                    if g.bone_count_max != w.bone_count_max {
+                        bad.push("bone_count_max");
+                    }
+                    if !bad.is_empty() {
+                        r.viol(format!("{what}: embedded skin profile ({})", bad.join("+")), format!("view {i}"));
+                        break;
+                    }
+                }
+            }
+            Some(_) => {}
+            None => r.viol(format!("{what}: embedded skin profile (records unreadable)"), "record array outside file"),
+        }
+    }
+}
+
+fn short(t: &walker::TrackData) -> String {
+    let s = format!("{:?}", t);
+    if s.len() > 300 {
+        format!("{}…", &s[..300])
+    } else {
+        s
+    }
+}
+
+fn seed_case(r: &mut CaseResult, seed: &emit::Seed, ver: M2Version) {
+    let vnum = seed.version;
+    let s = emit::emit(seed);
+    // self-check of emitter + walker: the seed must contain exactly what the spec says
+    {
+        let hs = walker::header(&s).expect("seed header");
+        let mut t = CaseResult::new();
+        for f in walker::check_layout(&s, &hs, &seed_expect(seed), "seed") {
+            t.viol(f.symptom, f.detail);
+        }
+        keyframes_vs_seed(&mut t, "seed", &s, &hs, seed, vnum);
+        assert!(t.viols.is_empty(), "emitter/walker self-check failed: {:?}", t.viols);
+    }
+    let p0 = match m2_parse(&s) {
+        Call::Ok(p) => p,
+        Call::Err(e) => {
+            r.outcome = "seed_rejected".into();
+            r.count("seeds_rejected_by_parser", 1);
+            r.viol("parser rejects a well-formed seed file", e);
+            return;
+        }
+        Call::Panic(c, d) => {
+            r.viol(format!("{c} [parse(seed)]"), d);
+            return;
+        }
+    };
+    r.count("parses", 1);
+    let w1 = step!(r, m2_write(&p0), "write(parse(seed))", true);
+    r.count("writes", 1);
+    r.count("bytes_written", w1.len() as u64);
+    let Some(h1) = walk(r, &w1, "write(parse(seed))", &seed_expect(seed)) else { return };
+    keyframes_vs_seed(r, "key frames not preserved by parse→write", &w1, &h1, seed, vnum);
+    let p1 = step!(r, m2_parse(&w1), "parse(write(parse(seed)))", false);
+    diff_sections(r, "parse(write(p)) differs from p = parse(seed)", &cmp::sections(&p0, true), &cmp::sections(&p1, true));
+    let w2 = step!(r, m2_write(&p1), "write(parse(write(parse(seed))))", false);
+    byte_diff(r, "second write is not byte-identical to the first", &w1, &w2);
+
+    // conversions of the parsed seed
+    for (tname, to) in gen::VERSIONS {
+        let b = to.to_header_version();
+        let mut t = CaseResult::new();
+        conv_seed(&mut t, &p0, seed, ver, to, &w1);
+        for v in t.viols {
+            r.viol(v.symptom, format!("to {tname}: {}", v.detail));
+        }
+        if t.err_return {
+            r.count("conversions_refused", 1);
+        }
+        r.count("conversions", 1);
+        let _ = b;
+    }
+}
+
+fn conv_seed(r: &mut CaseResult, p0: &M2Model, seed: &emit::Seed, _from: M2Version, to: M2Version, w1: &[u8]) {
+    let a = seed.version;
+    let b = to.to_header_version();
+    let c = step!(r, call(|| p0.convert(to).map_err(|e| e.to_string())), "convert(parse(seed))", true);
+    let wc = step!(r, m2_write(&c), "write(convert(parse(seed)))", true);
+    if a == b {
+        byte_diff(r, "conversion of a parsed seed to the same header version changes the written bytes", w1, &wc);
+        return;
+    }
+    let mut exp = seed_expect(seed);
+    if b > 263 {
+        exp.retain(|(s, _)| *s != "views");
+    }
+    let Some(hc) = walk(r, &wc, "write(convert(parse(seed)))", &exp) else { return };
+    if hc.version != b {
+        r.viol("converted file does not carry the target header version", format!("wanted {b} got {}", hc.version));
+        return;
+    }
+    // record layouts that differ between the two versions need the seed re-expressed: the
+    // key frames themselves (timestamps, values) are representable on both sides
+    keyframes_vs_seed(r, "conversion loses key frames", &wc, &hc, seed, a);
+    let _pc = step!(r, m2_parse(&wc), "parse(write(convert(parse(seed))))", false);
+}
+
+// ------------------------------------------------------------------ driver
+
+fn build(name: &str, _arg: &str, tier: Tier) -> Box<dyn Space> {
+    vcore::alloc::HARD_CAP.store(1usize << 30, std::sync::atomic::Ordering::Relaxed);
+    match name {
+        "m2" => Box::new(M2Space { models: enum_models(tier.pick(2, 3)) }),
+        "m2conv" => Box::new(ConvSpace { models: enum_models(tier.pick(1, 2)) }),
+        "seed" => Box::new(SeedSpace::new(tier)),
+        "skin" => Box::new(skinfile::SkinSpace::new(tier)),
+        "anim" => Box::new(animfile::AnimSpace::new(tier)),
+        _ => panic!("space {name}"),
+    }
+}
+
+fn main() {
+    let args: Vec<String> = std::env::args().collect();
+    if args.len() >= 2 && args[1] == "--repro" {
+        install_panic_hook();
+        repro::run(args.get(2).map(|s| s.as_str()).unwrap_or("all"));
+        return;
+    }
+    if args.len() >= 3 && args[1] == "--survey" {
+        // triage helper: run a whole space in-process and tabulate the symptom classes
+        install_panic_hook();
+        let tier = if args.get(3).map(|s| s.as_str()) == Some("thorough") { Tier::Thorough } else { Tier::Quick };
+        let sp = build(&args[2], "", tier);
+        let n = sp.len();
+        let table: std::sync::Mutex<std::collections::BTreeMap<String, (u64, u64, String)>> = Default::default();
+        let next = std::sync::atomic::AtomicU64::new(0);
+        std::thread::scope(|sc| {
+            for _ in 0..16 {
+                sc.spawn(|| loop {
+                    let i = next.fetch_add(1, std::sync::atomic::Ordering::Relaxed);
+                    if i >= n {
+                        break;
+                    }
+                    let r = match guarded(|| sp.run(i)) {
+                        Ok(r) => r,
+                        Err((f, l, m)) => {
+                            let mut r = CaseResult::new();
+                            r.viol(panic_class(&f, &m), format!("{f}:{l} {m}"));
+                            r
+                        }
+                    };
+                    let mut t = table.lock().unwrap();
+                    for v in r.viols {
+                        let e = t.entry(v.symptom).or_insert((0, u64::MAX, String::new()));
+                        e.0 += 1;
+                        if i < e.1 {
+                            e.1 = i;
+                            e.2 = v.detail;
+                        }
+                    }
+                });
+            }
+        });
+        for (s, (cnt, first, det)) in table.lock().unwrap().iter() {
+            println!("{cnt:7}  first={first:<7} {s}\n           case {}\n           {}", sp.describe(*first), det.chars().take(300).collect::<String>());
+        }
+        return;
+    }
+    let Mode::Supervisor(mut c) = start("C13", "exploration", build) else { return };
+    let k = c.tier.pick(2, 3);
+    c.rule = format!(
+        "m2: every model within <= {k} site deviations of the all-empty and of the all-populated baseline ({} sites, 3-5 population levels each: empty/one/three, names none/short/255 chars, textures unnamed/named, float pool ±0,1,-1.5,MAX,MIN_POSITIVE,±inf,subnormal) x 5 versions; m2conv: every model within <= {} deviations x all 25 (from,to) pairs x 2 entry points; seed: byte-level MD20 files carrying 1 or 3 key frames in 1 or 3 records for every subset of <= {} of the 10 animated sections (+ all ten) x shared-timestamps yes/no x 5 versions, each also converted to all 5 versions; skin: full product of 5 sections x {{empty,one,many}} x 6 header layouts x conversions; anim: full product format x sections x bones x track mask x keys. A case is non-trivial when at least one section is populated; distinct by its axis tuple.",
+        gen::SITES.len(),
+        c.tier.pick(1, 2),
+        c.tier.pick(2, 3)
+    );
+    c.assume("content equality is judged on the Debug rendering of the section vectors with every `offset:` value (recomputed by the writer) masked; NaN is not in the float pool (the parser documents that it replaces NaN pivots)");
+    c.assume("object-API models follow the convention of parsed objects: texture file name count includes the NUL, a non-zero placeholder offset marks a named texture, vertex bone indices stay below the bone count, animation blocks of API-built records are empty (key frames enter only through parsed seeds)");
+    c.assume("fields a version cannot store (bone name CRC < 260, camera id/flags < 264, ribbon slice/variation < 272, classic vs BC+ animation timing) are excluded from the comparison for that version / conversion pair");
+    c.assume("seed files and the container walker follow the record layouts the property names (32/52-byte sequences, 108/112/88-byte bones, 28/20-byte animated values); /repo/docs describes a later layout for some records and is used for header order and M2Array semantics only");
+    for s in ["m2", "m2conv", "seed", "skin", "anim"] {
+        c.run_space(s, "");
+    }
+    let mut sites = Map::new();
+    for s in gen::SITES {
+        sites.insert(s.name.into(), json!(s.levels.len()));
+    }
+    c.extra_cov.insert(
+        "axes".into(),
+        json!({"versions": 5, "m2_sites": gen::SITES.len(), "m2_levels_per_site": sites, "m2_max_deviations": k, "conversion_pairs": 25, "conversion_entry_points": 2,
+               "seed_tracked_sections": emit::TRACKED.len(), "seed_records": [1, 3], "seed_keys": [1, 3], "seed_shared_timestamps": 2,
+               "skin_layouts": skinfile::LAYOUTS.len(), "skin_sections": 5, "skin_levels": 3, "anim_formats": 2}),
+    );
+    c.finish();
+}
